@@ -131,6 +131,39 @@ func (x *Exec) buildQueryOpt(pcs [][]*Term, goals []*Term, slice bool, getValues
 						idxs := []*Term{t.Args[1]}
 						if t.Args[1].Op == "bvadd" {
 							idxs = append(idxs, t.Args[1].Args...)
+							// index = base + rest: "rest" (the sum of all summands but one) instantiates a
+							// hypothesis about s[J] at the position of a sub-slice element s[c+j]
+							var sum []*Term
+							var flat func(a *Term)
+							flat = func(a *Term) {
+								if a.Op == "const" && a.Def != nil && a.Def.Op == "bvadd" && len(sum) < 8 {
+									a = a.Def
+								}
+								if a.Op == "bvadd" && len(sum) < 8 {
+									for _, b := range a.Args {
+										flat(b)
+									}
+									return
+								}
+								sum = append(sum, a)
+							}
+							flat(t.Args[1])
+							if len(sum) >= 3 && len(sum) <= 5 {
+								for skip := range sum {
+									var rest *Term
+									for k, s := range sum {
+										if k == skip {
+											continue
+										}
+										if rest == nil {
+											rest = s
+										} else {
+											rest = BVBin("bvadd", rest, s)
+										}
+									}
+									idxs = append(idxs, rest)
+								}
+							}
 						}
 						for _, a := range idxs {
 							if !a.IsLit && len(a.String()) < 160 && isGroundTerm(a) && !seenC[a.String()] && len(cands) < 40 {
@@ -435,6 +468,9 @@ type DischargeOpts struct {
 	Workers      int
 	GetValues    []*Term
 	CrossCheck   bool
+	// KnownOpen: obligations listed as known findings: tried with the quick timeout only (an unfixed defect is
+	// not re-refuted at full length on every run; it is reported as KNOWN-FINDING unless it now proves)
+	KnownOpen map[string]bool
 }
 
 // Discharge decides all obligations of a function result.
@@ -484,7 +520,11 @@ func Discharge(fr *FuncResult, opts DischargeOpts) []OblResult {
 		go func(j job) {
 			defer wg.Done()
 			defer func() { <-sem }()
-			r := x.solveJob(j.pcs, j.goals, opts)
+			jopts := opts
+			if opts.KnownOpen[fr.Obligations[j.oi].Name()] {
+				jopts.FullTimeout = 0
+			}
+			r := x.solveJob(j.pcs, j.goals, jopts)
 			if os.Getenv("VCHECK_VERBOSE") != "" && r.Verdict != VUnsat {
 				fmt.Fprintf(os.Stderr, "  [instance %d of %s: %s by %s in %.1fs]\n", j.first, fr.Obligations[j.oi].Name(), r.Verdict, r.Solver, r.Dur.Seconds())
 				os.WriteFile(fmt.Sprintf("/tmp/vcheck_inst_%d.smt2", j.first), []byte(r.Raw), 0o644)
@@ -529,6 +569,9 @@ func (x *Exec) solveJob(pcs [][]*Term, goals []*Term, opts DischargeOpts) solveO
 	}
 	script := x.buildQuery(pcs, goals, true, nil)
 	r := RunSolver(context.Background(), Solvers[0], script, opts.QuickTimeout)
+	if r.Verdict == VUnknown && opts.FullTimeout == 0 {
+		return solveOut{VUnknown, r.Solver, time.Since(t0), "", script + "\n; ---- not decided within the quick limit (listed known finding: no full-length attempt) ----"}
+	}
 	if r.Verdict == VUnknown {
 		r = Race(script, opts.FullTimeout, Solvers)
 	}
